@@ -67,10 +67,11 @@ func genAdmCase(t *rapid.T) admCase {
 }
 
 type admEv struct {
-	kind   string // begin admit evict
+	kind   string // begin window admit evict demote end
 	c, v   int
 	cf, vf int
 	key    int
+	keys   []int // window: the positive-weight entries of the admission window at the start of the pass
 }
 
 func runAdmCase(c admCase) outcome {
@@ -82,6 +83,12 @@ func runAdmCase(c admCase) outcome {
 			trace = append(trace, admEv{kind: "begin"})
 		case "policy.evictFromMain.done":
 			trace = append(trace, admEv{kind: "end"})
+		case "policy.window":
+			ks := make([]int, 0, len(args))
+			for _, a := range args {
+				ks = append(ks, a.(int))
+			}
+			trace = append(trace, admEv{kind: "window", keys: ks})
 		case "policy.demote":
 			trace = append(trace, admEv{kind: "demote", key: args[0].(int)})
 		case "policy.admit":
@@ -161,6 +168,7 @@ func runAdmCase(c admCase) outcome {
 			demoted[trace[d].key] = true
 		}
 		consumed := map[int]bool{}
+		window := map[int]bool{} // candidates the pass falls back to once the demoted arrivals are used up
 		i = j
 		passes++
 		var pending *admEv
@@ -170,6 +178,11 @@ func runAdmCase(c admCase) outcome {
 			ev := &pass[x]
 			switch ev.kind {
 			case "demote":
+				continue
+			case "window":
+				for _, k := range ev.keys {
+					window[k] = true
+				}
 				continue
 			case "admit":
 				if pending != nil {
@@ -183,7 +196,7 @@ func runAdmCase(c admCase) outcome {
 				if pending == nil {
 					// removed without a comparison: legitimate for a candidate (oversized, or no victim left) and, for a
 					// resident, once no candidate is left - every arrival of this pass must have been judged or removed by then
-					if !demoted[ev.key] {
+					if !demoted[ev.key] && !window[ev.key] {
 						for d := range demoted {
 							if c.Weighted && admWeight(c.Max, d) == 0 {
 								continue // a zero-weight entry is skipped, it is no arrival that has to be judged
@@ -193,7 +206,14 @@ func runAdmCase(c admCase) outcome {
 								break
 							}
 						}
-						if len(demoted) > 0 {
+						// the same holds for the entries of the admission window: the pass takes its candidates from there once
+						// the demoted arrivals are used up, and a resident goes uncompared only when no candidate is left at all
+						for w := range window {
+							if o.Err == nil && !consumed[w] {
+								o.Err = fmt.Errorf("the resident key %d was evicted without any comparison while the entry %d of the admission window (positive weight, present when the pass began) had been neither compared with a victim nor removed", ev.key, w)
+							}
+						}
+						if len(demoted)+len(window) > 0 {
 							uncompared++
 						}
 					}
